@@ -337,7 +337,7 @@ fn check(a: &Args) -> i32 {
     let programs = a.programs.unwrap_or(if thorough { u64::MAX / 2 } else { 400 });
     let schedules = a.schedules.unwrap_or(if thorough { 3000 } else { 400 });
     let limit = a.secs.map(Duration::from_secs).or(if thorough && a.programs.is_none() { Some(Duration::from_secs(240)) } else { None });
-    println!("threadsim check property={} family={} tier={} VERIF_SEED={} jobs={} programs={} schedules/program={} pct={} time_limit={:?}", prop, fam, a.tier, a.seed, a.jobs, programs, schedules, thorough, limit);
+    println!("threadsim check property={} family={} tier={} VERIF_SEED={} jobs={} programs={} random-schedules/program={} pct={} time_limit={:?}", prop, fam, a.tier, a.seed, a.jobs, programs, schedules, thorough, limit);
     let start = Instant::now();
     let next = AtomicU64::new(0);
     let best = AtomicU64::new(u64::MAX);
@@ -366,7 +366,7 @@ fn check(a: &Args) -> i32 {
                         break;
                     }
                     let p = gen_program(fam, a.seed, i);
-                    match explore_all(&p, a.seed ^ i.wrapping_mul(0x9E37_79B9), schedules, thorough) {
+                    match explore_all(&p, a.seed ^ i.wrapping_mul(0x9E37_79B9), schedules, true) {
                         Ok(n) => {
                             execs.fetch_add(n as u64, Ordering::Relaxed);
                             progs.fetch_add(1, Ordering::Relaxed);
@@ -436,7 +436,7 @@ fn check(a: &Args) -> i32 {
                 "samples": samples,
                 "programs": progs.load(Ordering::Relaxed),
                 "schedules_per_program": schedules,
-                "schedulers": if thorough { "random + PCT depth 1..3" } else { "random" },
+                "schedulers": "seeded random + PCT depth 1..3 (a third of the random budget each)",
                 "distinct_schedules": distinct,
                 "history_events_checked": events.load(Ordering::Relaxed),
                 "histories_without_verdict_(search_budget)": lin::UNDECIDED.load(Ordering::Relaxed),
